@@ -41,15 +41,8 @@ def _ci(n, hi):
     return hi
 
 
-def location(l1: int, l2: int, l3: int, g0: int, g1: int, g2: int, b1: int, b2: int, lead_nl: int, bad: int) -> bool:
-    """
-    pre: 0 <= l1 <= 2 and 0 <= l2 <= 2 and 0 <= l3 <= 2
-    pre: 0 <= g0 <= 2 and 0 <= g1 <= 2 and 0 <= g2 <= 2
-    pre: 0 <= b1 <= 2 and 0 <= b2 <= 2 and 0 <= lead_nl <= 1
-    pre: g1 + b1 > 0 and g2 + b2 > 0
-    pre: -1 <= bad <= 2
-    post: _
-    """
+def location(l1, l2, l3, g0, g1, g2, b1, b2, lead_nl, bad):
+    # no PEP316 contract here on purpose: CrossHair may short-circuit calls to contracted functions
     l1, l2, l3 = _ci(l1, 2), _ci(l2, 2), _ci(l3, 2)
     g0, g1, g2, b1, b2, lead_nl, bad = _ci(g0, 2), _ci(g1, 2), _ci(g2, 2), _ci(b1, 2), _ci(b2, 2), _ci(lead_nl, 1), _ci(bad + 1, 3) - 1
     with NoTracing():
